@@ -5,7 +5,7 @@ CONSTANTS
   Forks = {0}
   Nows = {4}
   ScheduleEpochs = {2}
-  Members = {1, 2, 3}
+  Members = {1, 2}
   IndexSets = {{0}, {1, 5}}
   Sizes = {8}
   SubnetCounts = {4}
